@@ -213,6 +213,7 @@ impl Lattice {
             right_id: n.right_id,
             min_idx: usize::from(n.min_idx),
             min_cost: n.min_cost,
+            word_cost: 0,
         };
         let n = (self.len_char + 1).min(self.ends.len());
         crate::verif::LatticeDump {
